@@ -21,8 +21,12 @@ pub open spec fn no_dup(s: Seq<u32>) -> bool {
 }
 
 /// s without every occurrence of e, order kept
+pub open spec fn neq_pred(e: u32) -> spec_fn(u32) -> bool {
+    |x: u32| x != e
+}
+
 pub open spec fn seq_without(s: Seq<u32>, e: u32) -> Seq<u32> {
-    s.filter(|x: u32| x != e)
+    s.filter(neq_pred(e))
 }
 
 pub open spec fn intersects(a: Seq<u32>, b: Seq<u32>) -> bool {
@@ -88,4 +92,9 @@ pub proof fn lemma_contains_u32(s: Seq<u32>, e: u32)
         let i = choose|i: int| 0 <= i < s.len() && s[i] == e;
         assert(s[i].eq_spec(&e));
     }
+}
+
+/// a sequence of references seen as the sequence of the values referred to
+pub open spec fn deref_seq(s: Seq<&u32>) -> Seq<u32> {
+    s.map_values(|r: &u32| *r)
 }
